@@ -20,6 +20,13 @@ CLAIMED = {
                 text="The same seeded histories and sweeps, executed with AddressSanitizer, UndefinedBehaviorSanitizer (-fno-sanitize-recover) and libstdc++ assertions; "
                      "event-object reuse patterns and injected faults are what make dangling pointers and stale state reachable. A worker killed by a report is the suspect; the plan is shrunk and replayed.",
                 note="Intra-object overflows (spthe1 into spthe2 inside bbpars) are invisible to ASan; MSan is not used; GSL and libstdc++ are not instrumented."),
+    "C09": dict(level="exploration", ref="DESIGN.md section 3 (C09)", replay_flavour="asan",
+                technique="deterministic simulation: seeded API call sequences with injected initialise failures (I/O faults on gA data, cancellation, allocation failure), checked call by call against an executable reference state machine",
+                text="Seeded client sessions of public API calls on a generator (plus a bystander instance), every call checked against a small executable protocol model: which calls must be refused, "
+                     "what every getter reports after every call, that a failed initialise (invalid configuration, absent or torn gA dataset on the simulated disk, EIO, cancellation inside initialise, "
+                     "allocation failure) leaves the instance un-initialised and as usable as a pristine one, and that after reset the instance reports defaults and yields the events of a fresh instance.",
+                note="Acceptance of a configuration is not re-derived (that frontier is C06): the model asks a pristine instance in the same durable environment. is_debug() and has_decay_version() after an "
+                     "initialise attempt are deliberately not asserted; reset() of a never-initialised generator keeps its configuration by design and is only counted. Sampling, not the exhaustive enumeration the property's quantifier text mentions."),
 }
 
 NOT_APPLICABLE = {
